@@ -83,6 +83,12 @@ CURATED = [
     "a() = b() + c(k) + d(k)",
     "a(i) = b(i) + c(i,k) + d(k,i)",
     "a() = (b() + c(k)) * (d(k) + e())",
+    "a(i) = (b(i) + c(i) + d(i)) * e(i) + g(i)",
+    "a(i) = (b(i) + c(i)) * d(i) + e(i) * g(i)",
+    "a(i) = b(i) * c(i) + d(i) * e(i) + g(i)",
+    "a(i) = (b(i) + c(i)) * (d(i) + e(i))",
+    "a(i) = b(i) * 0.30000000000000004",
+    "a(i) = 0.1 * b(i) + 1234567.8901234567 * c(i)",
     "a() = 100000 * 100000",
     "a(i) = 3000000000 * b(i)",
     "a() = 1.0 * 100000 * 100000",
@@ -134,6 +140,30 @@ def random_assignment(rng: random.Random, max_leaves: int = 4) -> str:
 
     rhs, _ = tree(n_leaves)
     return f"a({','.join(target_idx)}) = {rhs}"
+
+
+def lattice_assignment(rng: random.Random) -> str:
+    """co-iteration stress: a random +,* tree over 3..6 distinct vectors sharing one index"""
+    n = rng.randint(3, 6)
+    names = TENSOR_NAMES[:n] if n <= len(TENSOR_NAMES) else TENSOR_NAMES + ["h"]
+    names = (TENSOR_NAMES + ["h"])[:n]
+    leaves = [f"{x}(i)" for x in names]
+    rng.shuffle(leaves)
+
+    def tree(ls):
+        if len(ls) == 1:
+            return ls[0], "leaf"
+        k = rng.randint(1, len(ls) - 1)
+        (l, lk), (r, rk) = tree(ls[:k]), tree(ls[k:])
+        op = rng.choice("+*")
+        if op == "*":
+            if lk == "+":
+                l = f"({l})"
+            if rk == "+":
+                r = f"({r})"
+        return f"{l} {op} {r}", op
+
+    return f"a(i) = {tree(leaves)[0]}"
 
 
 def parse(assignment_text: str):
